@@ -85,7 +85,7 @@ func cmdCLI(args []string) {
 	work := out("work")
 	os.MkdirAll(work, 0o755)
 	okCfg := filepath.Join(work, "ok.toml")
-	os.WriteFile(okCfg, []byte("[e_rsa_fermat_factorization]\nRounds = 3\n\n[verif_unrelated]\nx = 1\n"), 0o644)
+	os.WriteFile(okCfg, []byte("[e_rsa_fermat_factorization]\nRounds = 0\n\n[e_subj_orgunit_in_ca_cert]\nCrossCert = true\n\n[e_crl_next_update_invalid]\nSubscriberCRL = false\n\n[verif_unrelated]\nx = 1\n"), 0o644)
 	badCfg := filepath.Join(work, "bad.toml")
 	os.WriteFile(badCfg, []byte("[[[ this is not toml\n"), 0o644)
 	g := lint.GlobalRegistry()
@@ -104,6 +104,26 @@ func cmdCLI(args []string) {
 			edge = append(edge, o)
 		}
 	}
+	// certificates on which the configuration file of the "ok" scenarios changes a verdict (found by linting both ways)
+	var cfgSensitive []*corpus.Obj
+	if okc, err := lint.NewConfigFromFile(okCfg); err == nil {
+		for _, o := range c.Certs {
+			g.SetConfiguration(lint.NewEmptyConfig())
+			a, _, _ := runSet(fromObj(o), g)
+			g.SetConfiguration(okc)
+			b, _, _ := runSet(fromObj(o), g)
+			g.SetConfiguration(lint.NewEmptyConfig())
+			if a == nil || b == nil {
+				continue
+			}
+			for n, r := range a.Results {
+				if r2 := b.Results[n]; r2 != nil && r != nil && (r2.Status != r.Status || r2.Details != r.Details) {
+					cfgSensitive = append(cfgSensitive, o)
+					break
+				}
+			}
+		}
+	}
 	for si, s := range scns {
 		nrep := reps
 		intact := len(edge) > 0
@@ -120,6 +140,9 @@ func cmdCLI(args []string) {
 			certObj, crlObj := c.Certs[k%len(c.Certs)], c.CRLs[k%len(c.CRLs)]
 			if rep == reps {
 				certObj = edge[k%len(edge)]
+			}
+			if s.Cfg == "ok" && len(cfgSensitive) > 0 {
+				certObj = cfgSensitive[k%len(cfgSensitive)] // the configuration must be seen to matter
 			}
 			// ---- selection
 			var flags []string
